@@ -289,6 +289,8 @@ type ctEngine struct {
 	blobs             []ctBlob
 	m, sh             *ctModel
 	stranger, nnsUser *keys.PrivateKey
+	namedPut          map[string]string
+	namedEra          int
 	era               int
 	allowJump         bool
 	nForeign          int
@@ -394,6 +396,7 @@ func (e *ctEngine) run() {
 		poor[i] = Chance(t, "poor", 12)
 	}
 	e.allowJump = Prop() != "C05" && Chance(t, "allowJump", 30)
+	ownerIsNode, nodeOwner := Chance(t, "ownerIsNode", 25), Pick(t, "nodeOwner", 7)
 	ops := OpsSlice(t, rapid.Custom(ctGenOp), 60)
 
 	w := e.r.Own(NewFSWorld(FSOpts{N: e.n, Label: "ct", With: []string{"netmap", "balance", "neofsid", "container"},
@@ -406,6 +409,11 @@ func (e *ctEngine) run() {
 	e.preReg = map[string]bool{}
 	for i := 0; i < 3; i++ {
 		k := DetKey(fmt.Sprintf("ct/owner/%d", i))
+		if i == 2 && ownerIsNode {
+			// the owner who is an Alphabet node itself: one of the per-node fee
+			// payments goes from its account to its account
+			k = w.Privs[nodeOwner%len(w.Privs)]
+		}
 		e.owners = append(e.owners, ctOwner{name: fmt.Sprintf("o%d", i), key: k, id: ctOwnerID(k), acc: string(k.GetScriptHash().BytesBE())})
 	}
 	for _, p := range w.Pubs {
@@ -993,7 +1001,14 @@ func (e *ctEngine) block(pending []*ctTx, dt uint64) {
 		r.Fired("sched.pack")
 	}
 	touched := map[string]bool{}
-	namedPut := map[string]string{} // domain → id of the last successful putNamed not disturbed later in the block
+	// domain → id of the last successful putNamed not disturbed since (by the
+	// name's other users, a deletion, or a ten-year jump: names given before it
+	// have expired). Kept across blocks: what other containers do later must
+	// not take the record away.
+	if e.namedPut == nil || e.namedEra != e.era {
+		e.namedPut, e.namedEra = map[string]string{}, e.era
+	}
+	namedPut := e.namedPut
 	anyTook := false
 	var deferred []func()
 	for i, bt := range pending {
@@ -1090,7 +1105,9 @@ func (e *ctEngine) block(pending []*ctTx, dt uint64) {
 			if pred.state {
 				d := m.dead[string(bt.cid)]
 				for j, a := range d.aliases {
-					delete(namedPut, a.domain)
+					if namedPut[a.domain] == string(bt.cid) {
+						delete(namedPut, a.domain)
+					}
 					if j == len(d.aliases)-1 && a.expired() {
 						r.Count("probe.delete_after_alias_expired")
 					}
@@ -1634,7 +1651,7 @@ func (e *ctEngine) checkNNS(namedPut map[string]string) {
 		// only the name the container currently bears: putting a live container
 		// again under another name releases the previous one (judged below)
 		if id := namedPut[d]; m.live[id] != nil && len(m.live[id].aliases) > 0 && m.live[id].aliases[len(m.live[id].aliases)-1].domain == d && !has(d, id) {
-			r.Violation("C04/alias-record-missing", "", "putNamed(%s, %s) succeeded in this block and nobody touched the name since, but NNS has no TXT record of the container under it (records %q)", e.idName(id), d, e.records(d))
+			r.Violation("C04/alias-record-missing", "", "putNamed(%s, %s) succeeded and nobody else touched the name since, but NNS has no TXT record of the container under it (records %q)", e.idName(id), d, e.records(d))
 		}
 	}
 	// released names: of live containers (put again under another name) and of
